@@ -74,7 +74,7 @@ pub enum Ev {
 pub struct RuntimeState { pub vars: Ghost<Map<u64, Value>> }
 
 // ---- the embedder's event target (`&mut dyn Target`): every outcome is the embedder's choice.
-#[derive(Clone, Copy)]
+#[derive(Clone, Copy, PartialEq, Eq, Structural)]
 pub enum PathPrefix { Event, Metadata }
 pub struct OwnedValuePath { pub id: u64, pub root: bool }
 impl Clone for OwnedValuePath {
